@@ -451,13 +451,18 @@ fn check_default_into_stream(file: &syn::File) -> Result<(), String> {
 }
 
 fn main() {
-    let args: Vec<String> = std::env::args().collect();
+    let mut args: Vec<String> = std::env::args().collect();
+    let lab = args.get(1).map(|a| a == "--lab").unwrap_or(false);
+    if lab {
+        args.remove(1);
+    }
     let repo = args.get(1).cloned().unwrap_or("/repo".into());
     let out_lean = args.get(2).cloned().unwrap_or("/verif/lean/ZvtVerif/Generated.lean".into());
     let out_json = args.get(3).cloned().unwrap_or("/verif/.build/gen/schema.json".into());
     let out_rs = args.get(4).cloned().unwrap_or("/verif/harness/src/gen_dispatch.rs".into());
+    let (lean_ns, tyroot) = if lab { ("Zvt.Lab", "crate") } else { ("Zvt.Generated", "zvt") };
 
-    let files = [
+    let files_repo = [
         ("packets", "zvt/src/packets.rs"),
         ("packets::tlv", "zvt/src/packets/tlv.rs"),
         ("feig::packets", "zvt/src/feig/packets/mod.rs"),
@@ -466,13 +471,18 @@ fn main() {
         ("sequences", "zvt/src/sequences.rs"),
         ("feig::sequences", "zvt/src/feig/sequences.rs"),
     ];
+    let files: Vec<(&str, String)> = if lab {
+        vec![("lab", repo.clone())]
+    } else {
+        files_repo.iter().map(|(m, p)| (*m, format!("{repo}/{p}"))).collect()
+    };
     let mut raw_structs = vec![];
     let mut raw_enums = vec![];
     let mut impls = vec![];
     let mut problems: Vec<String> = vec![];
     let mut parsed: BTreeMap<String, syn::File> = BTreeMap::new();
     for (module, path) in files {
-        let src = std::fs::read_to_string(format!("{repo}/{path}")).unwrap_or_else(|e| {
+        let src = std::fs::read_to_string(&path).unwrap_or_else(|e| {
             problems.push(format!("cannot read {path}: {e}"));
             String::new()
         });
@@ -637,15 +647,20 @@ fn main() {
         }
         seqs.push(Seq { name, input, output, kind, finals });
     }
-    if let Some(f) = parsed.get("sequences") {
-        if let Err(e) = check_default_into_stream(f) {
-            problems.push(e);
+    if !lab {
+        match parsed.get("sequences") {
+            Some(f) => {
+                if let Err(e) = check_default_into_stream(f) {
+                    problems.push(e);
+                }
+            }
+            None => problems.push("sequences.rs not parsed".into()),
         }
     }
 
     // ---- error table
     let mut errors: Vec<(u64, String, String)> = vec![];
-    match std::fs::read_to_string(format!("{repo}/zvt/src/constants.rs")).map_err(|e| e.to_string()).and_then(|s| syn::parse_file(&s).map_err(|e| e.to_string())) {
+    if !lab { match std::fs::read_to_string(format!("{repo}/zvt/src/constants.rs")).map_err(|e| e.to_string()).and_then(|s| syn::parse_file(&s).map_err(|e| e.to_string())) {
         Ok(f) => {
             let mut disc: BTreeMap<String, u64> = BTreeMap::new();
             let mut order: Vec<String> = vec![];
@@ -697,7 +712,7 @@ fn main() {
             }
         }
         Err(e) => problems.push(format!("constants.rs: {e}")),
-    }
+    } }
 
     // ---- file ids (convert_dir) and client constants
     let mut file_ids: Vec<(String, u64)> = vec![];
@@ -723,7 +738,7 @@ fn main() {
             }
         }
     }
-    if file_ids.is_empty() {
+    if file_ids.is_empty() && !lab {
         problems.push("convert_dir table not found".into());
     }
 
@@ -750,8 +765,10 @@ fn main() {
         }
         syn::visit::visit_file(&mut V(consts), &f);
     };
-    grab_consts("zvt_feig_terminal/src/feig.rs", &mut consts, &mut problems);
-    grab_consts("zvt_feig_terminal/src/stream.rs", &mut consts, &mut problems);
+    if !lab {
+        grab_consts("zvt_feig_terminal/src/feig.rs", &mut consts, &mut problems);
+        grab_consts("zvt_feig_terminal/src/stream.rs", &mut consts, &mut problems);
+    }
 
     for s in &ordered {
         for p in &s.problems {
@@ -790,7 +807,7 @@ fn main() {
     // ---- Generated.lean
     let mut l = String::new();
     writeln!(l, "/- GENERATED by /verif/extract from the /repo sources on every check run. Do not edit. -/").unwrap();
-    writeln!(l, "import ZvtVerif.Schema\nnamespace Zvt.Generated\nopen Zvt\n").unwrap();
+    writeln!(l, "import ZvtVerif.Schema\nnamespace {lean_ns}\nopen Zvt\n").unwrap();
     for s in &ordered {
         let ctrl = match s.ctrl {
             Some((c, i)) => format!("(some ({c}, {i}))"),
@@ -832,7 +849,7 @@ fn main() {
     writeln!(l, "def consts : List (String × String) := [{}]\n", consts.iter().map(|(k, v)| format!("({}, {})", lean_str(k), lean_str(v.as_str().unwrap()))).collect::<Vec<_>>().join(",\n  ")).unwrap();
     writeln!(l, "/-- constructs the translator could not translate (must be empty). -/").unwrap();
     writeln!(l, "def problems : List String := [{}]\n", problems.iter().map(|p| lean_str(p)).collect::<Vec<_>>().join(",\n  ")).unwrap();
-    writeln!(l, "end Zvt.Generated").unwrap();
+    writeln!(l, "end {lean_ns}").unwrap();
     write_if_changed(&out_lean, &l);
 
     // ---- gen_dispatch.rs
@@ -841,7 +858,7 @@ fn main() {
     writeln!(r, "use crate::codec::{{run_dec, run_parse, Describe}};").unwrap();
     writeln!(r, "pub fn dec(ty: &str, bytes: &[u8]) -> Option<String> {{\n    Some(match ty {{").unwrap();
     for s in &ordered {
-        writeln!(r, "        {:?} => run_dec::<zvt::{}>(bytes),", s.name, s.name).unwrap();
+        writeln!(r, "        {:?} => run_dec::<{}::{}>(bytes),", s.name, tyroot, s.name).unwrap();
     }
     writeln!(r, "        _ => return None,\n    }})\n}}").unwrap();
     writeln!(r, "pub fn parse(en: &str, bytes: &[u8]) -> Option<String> {{\n    Some(match en {{").unwrap();
